@@ -150,6 +150,10 @@ impl TraceOut {
     pub fn create(path: &str) -> std::io::Result<Self> {
         Ok(TraceOut { f: std::io::BufWriter::new(std::fs::File::create(path)?), events: 0, watch: None, last_faulted: false, keep: None })
     }
+    pub fn append(path: &str) -> std::io::Result<Self> {
+        let f = std::fs::OpenOptions::new().create(true).append(true).open(path)?;
+        Ok(TraceOut { f: std::io::BufWriter::new(f), events: 0, watch: None, last_faulted: false, keep: None })
+    }
     pub fn ev(&mut self, mut v: Value) {
         if let Some(d) = &self.watch {
             let now = d.faulted();
